@@ -471,6 +471,12 @@ def fam_c19(R, n_random):
     add(H + '\npub enum T<X> { #[regex("a", |_| todo!())] A(X), }', 'any')
     add(H + '\npub enum T { }', 'any', None, 'no variants')
     add(H + '\n#[logos(skip "a")]\npub enum T { }', 'any', None, 'only skips')
+    # legal definitions none of whose patterns can ever match (empty classes, contradictory assertions): the lexer is
+    # useless but the derive must not panic
+    for ps in [['[^\\s\\S]'], ['[a-c&&x-z]+'], ['a(?-u:\\b)b'], ['let$x'], ['[^\\s\\S]', 'a(?-u:\\b)b'], ['a(?-u:\\B)-', 'x$y']]:
+        add(enum([], ['#[regex(%s)] V%d,' % (rust_str(p_), k) for k, p_ in enumerate(ps)]), 'any', None, 'every pattern unmatchable')
+    add(enum(['#[logos(skip "[^\\s\\S]")]'], ['#[regex("a(?-u:\\b)b")] A,']), 'any', None, 'every pattern unmatchable (skip + regex)')
+    add(enum(['#[logos(utf8 = false)]'], ['#[regex(b"a\\bb")] A,']), 'any', None, 'every pattern unmatchable (bytes)')
     # patterns that cannot be implemented
     for p in ['a*', '(a|)', '', 'a?', '(a*)*', 'a{0,3}', '(?:)', 'b*|a']:
         add(enum([], ['#[regex(%s)] A,' % rust_str(p)]), 'reject', 'empty', 'nullable')
